@@ -251,6 +251,8 @@ func createStoragePath(path string) {
 	}
 }
 
+// accessTime is an absolute time in Unix seconds, so that times recorded before a restart and
+// times recorded after it order correctly.
 type accessTime uint32
 type itemName string
 
@@ -330,7 +332,7 @@ func (s *storage) GetWriter(key Key, revalidate bool, closeNotifier *chan KeyInf
 				return
 			}
 			ai := accessedItem{
-				accessTime:    accessTime(time.Now().Unix() - s.startedAt),
+				accessTime:    accessTime(time.Now().Unix()),
 				sizeKilobytes: uint32(size / 1024),
 			}
 			s.itemsChan <- &itemWithOp{op: opAdd, name: itemName(name), accessedItem: &ai}
@@ -728,7 +730,7 @@ func (s *storage) readStorableAccessTimes() (withAccessTime map[itemName]accesse
 		if err != nil {
 			continue
 		}
-		atime = uint32(s.startedAt - i64)
+		atime = uint32(i64)
 		ssize := parts[2]
 		v, err := strconv.Atoi(ssize)
 		if err != nil {
@@ -898,7 +900,7 @@ func (s *storage) flushStorableAccessTimes() {
 
 func (s *storage) setAccessTime(key Key, size int64) {
 	name := itemName(key.FsName())
-	item := accessedItem{accessTime(time.Now().Unix() - s.startedAt), uint32(size / 1024)}
+	item := accessedItem{accessTime(time.Now().Unix()), uint32(size / 1024)}
 	storableItem := storableAccessedItem{time.Now().Unix(), uint32(size / 1024)}
 	s.itemsChan <- &itemWithOp{op: opAccessTime, name: name, accessedItem: &item, storableAccessedItem: &storableItem}
 }
